@@ -113,13 +113,14 @@ class SyntaxParserOfLark:
 			ソースコード
 		Note:
 			```
-			* 末尾が改行で終わらないソースは改行を補完する
+			* 末尾が改行で終わらないソースは改行を補完する(空のソースは対象外)
 			* 補完しない場合、PythonIndenterが入力終端で生成する_DEDENTは位置情報を持たず、
 			  末尾のブロックを含む全エントリーのソースマップの終了位置がNoneになる
 			```
 		"""
 		source = self.__source_provider(module_path)
-		return source if source.endswith('\n') else f'{source}\n'
+		# 空のソースには補完すべき最終行が存在しない(補完すると実在しない1行目を指すソースマップが生成される)
+		return source if source.endswith('\n') or len(source) == 0 else f'{source}\n'
 
 	def dirty_get_origin(self) -> lark.Lark:
 		"""Larkインスタンスを取得(デバッグ用)
